@@ -242,7 +242,11 @@ class Executor:
             if "read-only" in str(e) or "not writeable" in str(e):
                 r.fail("inplace_write_attempt[%s]" % name, "ValueError on a read-only input: %s" % e)
                 return "failed"
-            if not tol:
+            if "overlapping depth" in str(e) and name in ("proximity", "allocation", "direction"):
+                # outside the functions' stated domain (property C07: the halo, in cells, must not exceed the raster's own height/width - a Dask
+                # limitation the function does not work around); the before/after comparison below still runs
+                self.notes.append("halo_exceeds_raster[%s]" % name)
+            elif not tol:
                 raise
             out = None
         except (Violation, HarnessError):
